@@ -292,6 +292,37 @@ func (p *Prog) structural(st Structural) (bool, string) {
 		return p.fieldReadonly(st)
 	case "noflow":
 		return p.noflow(st)
+	case "nocall":
+		// nocall F G : function F contains no direct call (call, defer, go) of a function whose name matches G
+		if len(st.Args) != 2 {
+			return false, "nocall needs F and G"
+		}
+		var fn *ssa.Function
+		for k, f := range p.funcs {
+			if matchPattern(st.Args[0], k) && strings.HasPrefix(pkgPathOf(f), st.PkgPath) {
+				fn = f
+			}
+		}
+		if fn == nil || fn.Blocks == nil {
+			return false, "function " + st.Args[0] + " not found"
+		}
+		for _, b := range fn.Blocks {
+			for _, in := range b.Instrs {
+				var c *ssa.CallCommon
+				switch x := in.(type) {
+				case *ssa.Call:
+					c = x.Common()
+				case *ssa.Defer:
+					c = x.Common()
+				case *ssa.Go:
+					c = x.Common()
+				}
+				if c != nil && matchPattern(st.Args[1], calleeName(c)) {
+					return false, fmt.Sprintf("%s calls %s at %s", st.Args[0], calleeName(c), p.posString(in.Pos()))
+				}
+			}
+		}
+		return true, ""
 	case "defers":
 		// defers F G : function F contains a `defer` of (a function whose name matches) G in its entry path
 		if len(st.Args) != 2 {
